@@ -24,7 +24,7 @@ import numpy as np
 from . import common
 
 PROP = "C01"
-LEAN_MODULES = ["MiciVerif.Props.C01"]
+LEAN_MODULES = ["MiciVerif.Props.C01", "MiciVerif.Props.C01Stats"]
 LEAN_EXTRA = ["MiciVerif.Model.Transitions", "MiciVerif.Proto"]
 
 R_DELTA = 5  # max_delta_h = log(5); weight ratios are never within 6% of 5 (see gen_weights)
@@ -241,6 +241,7 @@ def run_metropolis(ctx, orb, n_or_range, i, fwd, random_len):
         trans = mici.transitions.MetropolisStaticIntegrationTransition(system, integ, n_or_range)
     dist = {}
     bad_stats = []
+    seen_stats = set()
 
     def run(rng):
         del calls[:]
@@ -263,6 +264,9 @@ def run_metropolis(ctx, orb, n_or_range, i, fwd, random_len):
             bad_stats.append(f"accept_stat={stats['accept_stat']} expected {want}")
         if err and not (stats["convergence_error"] or stats["non_reversible_step"]):
             bad_stats.append("integrator error not recorded in statistics")
+        seen_stats.add((int(stats["n_step"]), float(stats["accept_stat"]),
+                        bool(stats["convergence_error"] or stats["non_reversible_step"])))
+    run_metropolis.last_stats = seen_stats
     return dist, bad_stats
 
 
@@ -286,7 +290,10 @@ def metropolis_section(ctx, rng):
                 else:
                     reqs.append(f"metro {n} {i} {int(fwd)} {orb.lo} {wv} {bv}")
                     metas.append((orb, n, i, fwd, False))
-    model = common.run_driver("C01", reqs)
+    # statistics of the static variant: `metropolisStats` of the model for the same requests
+    stat_reqs = [r.replace("metro ", "metrostat ", 1) for r in reqs if r.startswith("metro ")]
+    model_all = common.run_driver("C01", reqs + stat_reqs)
+    model, model_stats = model_all[: len(reqs)], dict(zip(stat_reqs, model_all[len(reqs):], strict=True))
     kernels = {}
     for req, (orb, n, i, fwd, rl), mline in zip(reqs, metas, model, strict=True):
         mdist = {}
@@ -310,6 +317,20 @@ def metropolis_section(ctx, rng):
                 break
         for b in bad_stats[:1]:
             ctx.violation("metropolis statistics", f"{req}: {b}", {"request": req, "kind": "metro-stats"})
+        if not rl:
+            # the statistics do not depend on the random draws: every rng path reports the same
+            # triple, which must be the model's `metropolisStats`
+            ms = model_stats[req.replace("metro ", "metrostat ", 1)].split(" | ")
+            want = (int(ms[0]), float(common.parse_frac(ms[1])), ms[2] == "1")
+            got = getattr(run_metropolis, "last_stats", set())
+            ctx.count("metropolis_stats_compared")
+            if len(got) != 1 or not all(
+                g[0] == want[0] and common.close(g[1], want[1], 1e-9, 1e-12) and g[2] == want[2] for g in got
+            ):
+                ctx.disagreement(
+                    f"metropolis statistics (n_step, accept_stat, error) impl {sorted(got)} model {want}",
+                    {"request": req},
+                )
         kernels.setdefault((id(orb), str(n), rl), (orb, n, rl, {}))[3][(i, 1 if fwd else -1)] = idist
     # direct oracle: balance of the real kernel
     for orb, n, rl, rows in kernels.values():
